@@ -69,7 +69,12 @@ CFG = {
         # not aligned with the search mesh (clamping to the bound and projecting to the mesh-rounded bound differ there)
         extra=[(dict(name="c02corner", cons_p=1.0, cons=["corner", "halfspace", "annulus", "slab"], cons_w=[6, 1, 2, 1], geom=["sym", "asym", "tight"], geom_w=[2, 3, 1],
                      where=["outside", "face"], where_w=[3, 2], fam=["quad", "abs", "linear"], fam_w=[3, 1, 2], noise=["none"], noise_w=[1],
-                     D=[2, 2, 3], x0=["inside"], x0_w=[1], budget_kinds=["mid"], budget_min=40, knobs=dict(n_search=0.3, max_iter=0.0)), 32, 500)],
+                     D=[2, 2, 3], x0=["inside"], x0_w=[1], budget_kinds=["mid"], budget_min=40, knobs=dict(n_search=0.3, max_iter=0.0)), 32, 500),
+               # infeasible centre of the plausible box (= origin of the internal coordinates, a node of every mesh) in low
+               # dimension, start on a coarse lattice point: polls and searches keep proposing the origin itself
+               (dict(name="c02hole", cons_p=1.0, cons=["hole"], cons_w=[1], geom=["sym", "asym", "tight"], geom_w=[3, 1, 4], D=[1, 1, 1, 2],
+                     where=["plausible"], where_w=[1], fam=["quad", "abs"], fam_w=[1, 1], noise=["none", "declared"], noise_w=[3, 1],
+                     x0=["inside"], x0_w=[1], budget_kinds=["small"], knobs=dict(max_iter=0.0)), 24, 300)],
         nontrivial=lambda r: (r["outcome"] == "completed" and r["n_polls"] >= 1 and r["n_calls"] >= 5) or
                              (r["outcome"] == "ctor_valueerror"),
         rule="distinct constrained scenarios: completed runs with >=5 evaluations and >=1 poll, or constructor rejections (infeasible / near-boundary x0)",
@@ -83,7 +88,7 @@ CFG = {
         rule="distinct scenarios whose run terminated normally after >=1 main-loop iteration (budget, counters, non-progress bound and message judged)",
     ),
     "C04": dict(
-        profile=dict(name="c04", noise=["none"], noise_w=[1], fam_w=[4, 2, 3, 1, 2, 1, 3], where_w=[3, 2, 3, 2, 1], cons_p=0.3, knobs=dict(tol_noise=0.2)),
+        profile=dict(name="c04", noise=["none"], noise_w=[1], fam_w=[4, 2, 3, 1, 2, 1, 3], where_w=[3, 2, 3, 2, 1], cons_p=0.3, knobs=dict(tol_noise=0.2, stobads=0.25, complete_poll=0.4)),
         n=dict(quick=128, thorough=4000),
         rule="distinct deterministic scenarios completed with >=1 poll and >=1 search step",
     ),
